@@ -5,8 +5,9 @@
 // up to a depth. A state is (database content, content of the five LRU caches); it is
 // reached by replaying its history on a brand-new Store over a brand-new crashkv database.
 // In every distinct state every public getter is evaluated on its own replica of the state:
-//   first read on the long-lived store == the same getter on a fresh database.NewStore over
-//   the same database (the reference: no cache), and a second read == the first.
+//
+//	first read on the long-lived store == the same getter on a fresh database.NewStore over
+//	the same database (the reference: no cache), and a second read == the first.
 package main
 
 import (
@@ -407,6 +408,18 @@ type viol struct {
 // judge evaluates every getter in the state reached by h, each on its own replica.
 func judge(h []uint8) (vs []viol, comparisons int, outcomes map[string]int) {
 	outcomes = map[string]int{}
+	if len(h) > 0 {
+		if in, p := replay(h[:len(h)-1]); p == "" {
+			func() {
+				defer func() { recover() }()
+				if err := events[h[len(h)-1]].Do(in.store); err != nil {
+					outcomes["op-"+events[h[len(h)-1]].Kind+"-error"]++
+				} else {
+					outcomes["op-"+events[h[len(h)-1]].Kind+"-ok"]++
+				}
+			}()
+		}
+	}
 	for _, g := range getters {
 		in, p := replay(h)
 		if p != "" {
@@ -427,9 +440,9 @@ func judge(h []uint8) (vs []viol, comparisons int, outcomes map[string]int) {
 		comparisons += 2
 		switch {
 		case strings.HasPrefix(ref, "error:"):
-			outcomes["getter-error"]++
+			outcomes[getterKind(g.Name)+"-error"]++
 		default:
-			outcomes["getter-value"]++
+			outcomes[getterKind(g.Name)+"-value"]++
 		}
 		if r1 != ref {
 			outcomes["first-read-differs-from-fresh-store"]++
@@ -491,6 +504,7 @@ func main() {
 	}
 
 	seen := map[string]bool{}
+	classes := map[string]int{}
 	frontier := [][]uint8{{}}
 	states, transitions, comparisons := 0, 0, 0
 	perDepth := []int{}
@@ -512,9 +526,7 @@ func main() {
 		for _, r := range rs {
 			comparisons += r.n
 			for k, n := range r.out {
-				for j := 0; j < n; j++ {
-					run.Outcome(k)
-				}
+				classes[k] += n
 			}
 			if len(r.vs) > 0 {
 				staleStates++
@@ -584,6 +596,10 @@ func main() {
 	}
 	_ = exhausted
 
+	run.Set("result_classes", classes)
+	for k := range classes {
+		run.Outcome(k)
+	}
 	run.Set("states", states)
 	run.Set("transitions", transitions)
 	run.Set("traces_validated_against_impl", comparisons)
